@@ -163,7 +163,7 @@ def snapshot_ratings(registry):
 
 
 def model_state(m):
-    return {k: (v if not callable(v) else id(v)) for k, v in m.__dict__.items()}
+    return p_state(m)
 
 
 def c13_call(res, kind, call, drv_out):
@@ -327,6 +327,12 @@ def gen_calls(rng, kind, beta, ncalls):
         op = rng.choice(["rate", "rate", "rate", "predict_win", "predict_draw", "predict_rank"])
         teams = gen_teams(rng, rng.choice(["typical", "mismatch", "equalsize"]), beta, n=rng.randint(2, 4), maxsize=3)
         n = len(teams)
+        # newcomers with exactly the default values recur from call to call (value-keyed caches would hit)
+        sc = beta / core.DEFAULTS["beta"]
+        for t in teams:
+            for j in range(len(t)):
+                if rng.random() < 0.35:
+                    t[j] = (25.0 * sc, 25.0 / 3.0 * sc)
         kw = {}
         if op == "rate":
             r = rng.random()
@@ -375,7 +381,19 @@ def c14_history(res, rng, kind):
 
 
 def p_state(m):
-    return {k: (v if not callable(v) else id(v)) for k, v in m.__dict__.items() if k != "_verif_armed"}
+    """deep snapshot of the model object: a cache dict mutated in place must show up"""
+    out = {}
+    for k, v in m.__dict__.items():
+        if k == "_verif_armed":
+            continue
+        if callable(v):
+            out[k] = id(v)
+        else:
+            try:
+                out[k] = copy.deepcopy(v)
+            except Exception:  # noqa: BLE001
+                out[k] = repr(v)
+    return out
 
 
 def first_mismatch(a, b):
